@@ -4,6 +4,7 @@ package c19
 
 import (
 	"fmt"
+	"runtime/debug"
 
 	"go.lstv.dev/util/internal/vsim/core"
 	"go.lstv.dev/util/internal/vsim/sched"
@@ -167,6 +168,10 @@ func (Prop) Run(t *core.Tape, o core.RunOpts) *core.Result {
 	and = [2]uint64{^uint64(0), ^uint64(0)}
 	total := 0
 
+	// no garbage collection while a run is in progress: the address-based race hooks rely
+	// on no heap address being reused within a run
+	gcOff := debug.SetGCPercent(-1)
+	defer debug.SetGCPercent(gcOff)
 	s.Run(n, arrive, func(task int) {
 		for c := 0; c < calls && !s.Aborted(); c++ {
 			s.Yield(sched.KPreCall, 0)
